@@ -120,7 +120,7 @@ def main(chk, tier, seed):
                        "are subscribed from inside a monitored callback; other subscriptions (e.g. Messaging's retry callback) are counted, not judged",
                        "thread schedules are sampled, not enumerated"]
     n = 40 if tier == "quick" else 800
-    common.run_chunked(chk, "c21", n, nchunks=20 if tier == "quick" else 80, job_extra={"lines": tier == "thorough"}, timeout=3000)
+    common.run_chunked(chk, "c21", n, nchunks=20 if tier == "quick" else 80, job_extra={"lines": tier == "thorough"}, timeout=600 if tier == "quick" else 3000)
     kinds = chk.extra.get("records_by_kind", {})
     for k in ("start", "message", "pause", "periodic", "discovery_cb"):
         chk.inconclusive_if(kinds.get(k, 0) < 5 and not chk.violations, "callback kind %r observed only %d times" % (k, kinds.get(k, 0)))
